@@ -7,7 +7,10 @@ against harness/alloc.cpp, which counts allocations per thread (replaced operato
 family and mmap defined in the executable) around each log call and records the thread every user
 formatter runs on, over the statement signatures of harness/codec_sigs.h x the macro families x a
 bounded and an unbounded frontend.  The monitor evaluates the property itself on those observations;
-it is the only part that can see an allocation hidden inside unmodelled code (hence PARTIAL)."""
+it is the only part that can see an allocation hidden inside unmodelled code (hence PARTIAL).
+The model has a code-variant flag (map_copies: 0 = the repaired map codecs that encode the members of an element
+in place, 1 = the pinned ones of finding C11-F1 that convert every element to a temporary std::pair); it is the
+first token of every case line and is always written from the T-src fact c11_map_elems_in_place (src_variant)."""
 import json, os, re, sys, threading, time
 from vlib import Check, standard_proof_phase, correspond, ddmin, VERIF, tree_hash
 import c04 as K           # the statement signatures, the type DSL and the value generator are C04's (read only)
@@ -15,13 +18,14 @@ import c04 as K           # the statement signatures, the type DSL and the value
 PID = 'C11'
 MANIFEST = dict(
     category='proof',
-    text='PARTIAL. Proved (Coq, every theorem closed under the global context) about an executable model of one thread\'s log path (thread-context creation on the first call / preallocate(), the size pass with the real cache-clearing rule on the InlinedVector size cache, reservation on the bounded queue / growth and shrink of the unbounded queue, header + encode pass): for every frontend configuration, every state a thread can reach by any sequence of preallocate / log / shrink / backend-drain operations, every argument list over the nested type universe of C04 and with or without a dynamic level: registered thread + at most 12 cached lengths (more generally: at most the current capacity of the size cache) + encoded size granted by the current queue buffer + no not-trivially-copyable deferred type and no filesystem path at any depth + every std::map/unordered_map inside the arguments has arithmetic key and mapped type or ones whose copies cannot allocate => the call performs none of the modelled allocations and is enqueued (C11_steady_no_alloc, C11_steady_no_alloc_capacity). The last hypothesis is not part of the property: the real map codecs copy every element into a temporary std::pair at the call site, so a std::map<uint32_t, std::string> allocates on every call - proved on the model (C11_steady_no_alloc_refuted_map), replayed on the code, open finding C11-F1. Also proved: the first call / preallocate() does allocate; a 13th cached length allocates, also when all thirteen come from one std::vector<char const*> argument; clear() keeps the grown buffer; an unbounded queue allocates a node when the record misses the current node, a bounded queue never; the excluded kinds are visible allocation sources; in a frontend step only DirectFormatCodec arguments are formatted, every other kind on the backend (C11_format_on_backend). The inline capacity 12, the growth factor 2, the shapes of push_back / clear / the cache-clearing rule / log_statement and "only DirectFormatCodec calls libfmt, only Codec<fs::path> builds a temporary in compute_encoded_size / encode" are read from the source on every run (T-src). NOT proved - exploration only: that the real code has no allocation source besides the modelled ones (a temporary inside a codec, libfmt, a macro, the standard library) and that no formatter runs on the caller. This is SAMPLED by counting operator new / malloc family / mmap per thread around each real log call and recording the thread of every user formatter, over ~100 statement signatures x 9 macro families x a bounded and an unbounded frontend with generated values (0-14 C strings, records that exactly fit / miss by one the remaining buffer, first vs second call, after drain, after shrink), compared with the model\'s prediction and checked by a monitor of the property itself; that sampling found C11-F1.',
+    text='PARTIAL. Proved (Coq, every theorem closed under the global context) about an executable model of one thread\'s log path (thread-context creation on the first call / preallocate(), the size pass with the real cache-clearing rule on the InlinedVector size cache, reservation on the bounded queue / growth and shrink of the unbounded queue, header + encode pass): for every frontend configuration, every state a thread can reach by any sequence of preallocate / log / shrink / backend-drain operations, every argument list over the nested type universe of C04 and with or without a dynamic level: registered thread + at most 12 cached lengths (more generally: at most the current capacity of the size cache) + encoded size granted by the current queue buffer + no not-trivially-copyable deferred type and no filesystem path at any depth => the call performs none of the modelled allocations and is enqueued (C11_steady_no_alloc, C11_steady_no_alloc_capacity; maps of strings, containers and nested maps included). The model carries a code-variant flag map_copies: false = the repaired map codecs (Codec<Key> / Codec<T> on elem.first / elem.second in place), true = the pinned earlier ones, which handed every element to Codec<std::pair<Key, T>> and so copied key and value into a temporary pair in both passes (finding C11-F1, fixed); the variant that stands for the source tree is fixed by T-src (tools/srcfacts.py c11f_facts: the four bodies compute_encoded_size / encode of std/Map.h and std/UnorderedMap.h, TieC11.v by vm_compute, C11_tie_map_codecs), and the two main theorems are stated for that variant. The pinned behaviour is kept as statements about the flag-on variant: there the theorem needs the extra hypothesis that every map has arithmetic or copy-free key and mapped type (C11_steady_no_alloc_pinned_partial) and a std::map<uint32_t, std::string> allocates twice per call (C11_steady_no_alloc_refuted_map); the variant never changes the state a step leaves (C11_variant_same_states). Also proved (both variants): the first call / preallocate() does allocate; a 13th cached length allocates, also when all thirteen come from one std::vector<char const*> argument; clear() keeps the grown buffer; an unbounded queue allocates a node when the record misses the current node, a bounded queue never; the excluded kinds are visible allocation sources; in a frontend step only DirectFormatCodec arguments are formatted, every other kind on the backend (C11_format_on_backend). The inline capacity 12, the growth factor 2, the shapes of push_back / clear / the cache-clearing rule / log_statement and "only DirectFormatCodec calls libfmt, only Codec<fs::path> builds a temporary in compute_encoded_size / encode" are read from the source on every run (T-src). NOT proved - exploration only: that the real code has no allocation source besides the modelled ones (a temporary inside a codec, libfmt, a macro, the standard library) and that no formatter runs on the caller. This is SAMPLED by counting operator new / malloc family / mmap per thread around each real log call and recording the thread of every user formatter, over ~100 statement signatures x 9 macro families x a bounded and an unbounded frontend with generated values (0-14 C strings, maps with std::string / container / nested-map keys and mapped values beyond the small-string capacity, records that exactly fit / miss by one the remaining buffer, first vs second call, after drain, after shrink), compared with the model\'s prediction and checked by a monitor of the property itself, which demands zero caller allocations for those maps too; that sampling had found C11-F1.',
     design='5 C11',
     technique='Coq proof over an executable allocation model of the frontend path (invariant over all reachable thread states, structural induction on nested types) + T-src facts from clang AST + differential runs against an allocation-counting, formatter-thread-recording harness and a direct property monitor (exploration for unmodelled code)')
 TRUSTED = [
     'Coq 8.16.1 kernel (coqc, vm_compute for the computed instances; no native_compute)',
     'axioms: none (every theorem Closed under the global context)',
     'the theorems are about the four MODELLED allocation sources only (alloc_source in Alloc/AllocModel.v); allocations inside code the model does not describe (libfmt, libstdc++, the codecs\' bodies beyond what CodecDefs.size describes, macros) are covered only on the sampled instantiations - this is why the property is claimed partial',
+    'T-src: tools/srcfacts.py c11f_facts (comment-stripped, white-space-normalised text of compute_encoded_size / encode of std/Map.h and std/UnorderedMap.h: `for (auto const& elem : arg)`, Codec<Key> on elem.first then Codec<T> on elem.second, no pair mentioned) decides the model flag map_copies; TieC11.v pins the four bodies by vm_compute',
     'T-src: tools/srcfacts.py block C11 over clang 14 JSON AST (InlinedVector capacity / growth / push_back / clear, ThreadContext holds the cache by value, the cache-clearing rule, log_statement skeleton) and a brace-matched text scan of compute_encoded_size / encode bodies for libfmt calls and temporaries (syntactic)',
     'extraction: ExtrOcamlBasic only, OCaml 4.13.1 ocamlopt, extract/driver.ml',
     'harness/alloc.cpp (g++ -O1 -DNDEBUG, no sanitizers): replaced global operator new/delete (all overloads), malloc/calloc/realloc/memalign/aligned_alloc/posix_memalign/valloc/pvalloc forwarding to __libc_*, mmap/mmap64 forwarding with dlsym(RTLD_NEXT); thread_local counters active only inside the window of the call on the calling thread; allocations made by glibc internally without going through these symbols (none expected on this path) are invisible; brk/sbrk growth inside malloc is attributed to the malloc call that caused it',
@@ -31,6 +35,7 @@ TRUSTED = [
 ]
 
 NPARTS = K.NPARTS
+MAPCP = 0                       # the model's code-variant flag map_copies, set from the T-src facts by src_variant()
 SSO = 15
 COPYW = 40                      # sizeof(DStr): the deferred user type whose copy constructor allocates
 CFG = {0: dict(unb=0, drop=1, init=8192, max=0), 1: dict(unb=1, drop=1, init=2048, max=65536)}
@@ -158,6 +163,7 @@ def parse_case(case):
     """case text -> dict(fe, sig, cid, ts, head (tokens up to and including nops), ops)
     op = (kind, toks) with toks the op's own tokens; log ops carry 'nvar'"""
     a = list(map(int, case.split()[1:]))
+    mapcp = a[0]; a = a[1:]            # the model's code-variant flag leads the line; head keeps it out
     unb = a[0]; sig = a[6] & 0xffff; cid = a[6] >> 16; tylen = a[7]
     pos = 9 + tylen
     nops = a[pos]; head = a[:pos]; i = pos + 1
@@ -175,11 +181,18 @@ def parse_case(case):
             ops.append(dict(kind=k, x=a[i + 1], toks=a[i:i + 2])); i += 2
         else:
             ops.append(dict(kind=k, toks=a[i:i + 1])); i += 1
-    return dict(fe=1 if unb else 0, sig=sig, cid=cid, ts=ts, head=head, ops=ops)
+    return dict(fe=1 if unb else 0, sig=sig, cid=cid, ts=ts, head=head, ops=ops, mapcp=mapcp)
 
 
 def unparse(head, ops):
-    return 'alloc ' + ' '.join(map(str, head + [len(ops)] + sum((o['toks'] for o in ops), [])))
+    """the case text; <mapcp> is always written from the current T-src facts (MAPCP)"""
+    return 'alloc ' + ' '.join(map(str, [MAPCP] + head + [len(ops)] + sum((o['toks'] for o in ops), [])))
+
+
+def with_variant(case):
+    """a stored case (corpus file, replay) with its <mapcp> token replaced by the variant of the current tree"""
+    w = case.split()
+    return ' '.join([w[0], str(MAPCP)] + w[2:])
 
 
 def make_head(fe, cid, sig):
@@ -292,7 +305,8 @@ class Gen:
                         if L >= 0: s.add(fe, sig, [PRE, fill_op(3000), DRAIN, shrink_op(1024), fill_op(L), log_op(sig, fam, v1), DRAIN, log_op(sig, fam, v2)], 'fit-after-shrink:%+d' % d)
                     s.add(fe, sig, [log_op(sig, fam, v1), shrink_op(s.rng.choice([1024, 2048, 4096])), log_op(sig, fam, v2), fill_op(5000), log_op(sig, fam, v1), shrink_op(2048), log_op(sig, fam, v2)], 'shrink-noop-and-real')
 
-    # -- maps whose key / mapped type is a std::string or a container (finding C11-F1), long and short strings
+    # -- maps whose key / mapped type is a std::string or a container (finding C11-F1, fixed: they must allocate
+    #    nothing in a steady-state call), long and short strings
     def maps(s, reps):
         for _ in range(reps):
             for sig in (58, 59, 60, 72, 78, 101, 57, 61, 63):
@@ -429,7 +443,8 @@ def load_findings():
 
 
 def make_known_match(side):
-    """open findings of known_findings.d/C11.json.  C11-F1 (map elements copied into temporary pairs) is
+    """open findings of known_findings.d/C11.json (none at present: C11-F1 is fixed, so a map element copied into
+    a temporary pair is reported as a violation).  While it was open, C11-F1 was
     recognised only when the failing call made exactly the operator new calls those copies explain (two
     passes x the copies libstdc++ makes for the element values of this case) and nothing else; any other
     allocation on the same statement is still a violation."""
@@ -463,7 +478,7 @@ def build_all(ck):
 
 
 def exe_of(case):
-    sig = int(case.split()[7]) & 0xffff
+    sig = int(case.split()[8]) & 0xffff
     return SIG_INDEX.get(sig, 0) % NPARTS
 
 
@@ -508,7 +523,7 @@ def corpus():
         for f in sorted(os.listdir(d)):
             for l in open(os.path.join(d, f)):
                 l = l.strip()
-                if l and not l.startswith('#'): out.append((f, l))
+                if l and not l.startswith('#'): out.append((f, with_variant(l)))
     return out
 
 
@@ -522,9 +537,27 @@ def nontrivial(case):
     return False
 
 
+def src_variant(ck):
+    """T-src: the model's code-variant flag from the fact tools/srcfacts.py (c11f_facts) regenerated from the source tree"""
+    global MAPCP
+    try:
+        facts = open(os.path.join(VERIF, 'coq', 'gen', 'SrcFacts.v')).read()
+    except OSError:
+        facts = ''
+    m = re.search(r'Definition c11_map_elems_in_place : bool := (\w+)\.', facts)
+    v = m.group(1) if m else None
+    MAPCP = 0 if v == 'true' else 1
+    ck.tie.append({'T-src facts': {'c11_map_elems_in_place': v}, 'model variant for the correspondence run': 'map_copies=%d' % MAPCP,
+                   'lemmas': 'TieC11.src_map_elems_in_place, TieC11.src_map_copies_false, TieC11.src_map_codec_bodies (vm_compute); Properties_C11.C11_tie_map_codecs'})
+    return v
+
+
 def run(tier):
     ck = Check(PID, tier)
     broken = standard_proof_phase(ck, 'Properties_C11')
+    v = src_variant(ck)
+    if MAPCP:
+        ck.log('T-src: c11_map_elems_in_place=%s -> the map codecs of this source tree do not encode the members of an element in place (repair of C11-F1 missing or undone); the model runs its pinned variant (map_copies=1)' % v)
     try:
         facts = open(os.path.join(VERIF, 'coq', 'gen', 'SrcFacts.v')).read()
         ck.tie.append({'T-src facts': {k: (re.search(r'Definition %s : \w+ := ([^.]+)\.' % k, facts) or [None, None])[1]
@@ -651,11 +684,11 @@ def run(tier):
     nt = len(set(c for c in cases if nontrivial(c)))
     cov = {k: v for k, v in g.cov.items() if not k.startswith('sig')}
     return ck.finish(trusted=TRUSTED, samples=[c[:300] for c in (g.cases[:1] + g.cases[40:41] + g.cases[-1:])],
-                     rule='one case = one fresh logging thread of a bounded (8 KiB, dropping) or unbounded (2 KiB..64 KiB, dropping) frontend running a list of operations: preallocate / log the case\'s statement signature through one of %d macro families with fresh values / filler statement of a chosen size / shrink / backend drain; generators: every signature x every family (first vs second call), 0-14 C strings as arguments and as container elements, records that fit exactly / miss by one (after preallocate, second call, after drain, after shrink), random scenarios, oversize records; non-trivial = a log call happens after the thread context exists (steady state); distinct by case text' % len(FAMS),
+                     rule='case = "alloc <mapcp> ..." (<mapcp> = the model\'s code-variant flag map_copies, taken from the T-src fact c11_map_elems_in_place); one case = one fresh logging thread of a bounded (8 KiB, dropping) or unbounded (2 KiB..64 KiB, dropping) frontend running a list of operations: preallocate / log the case\'s statement signature through one of %d macro families with fresh values / filler statement of a chosen size / shrink / backend drain; generators: every signature x every family (first vs second call), 0-14 C strings as arguments and as container elements, maps / unordered maps / nested maps with heap-owning keys and mapped values (strings of 0, 5, 15, 16, 17, 40 bytes, vectors), records that fit exactly / miss by one (after preallocate, second call, after drain, after shrink), random scenarios, oversize records; non-trivial = a log call happens after the thread context exists (steady state); distinct by case text' % len(FAMS),
                      evaluations=len(cases), distinct_nontrivial=nt, traces=len(cases) - len(dis) - len(mon),
                      extra_cov={'disagreements': len(dis), 'monitor_failures': len(mon), 'corpus_cases': len(corp),
                                 'signatures': len(SIG_INDEX) - len(EXCLUDED_SIGS), 'signatures_hit': len([k for k in g.cov if k.startswith('sig')]),
-                                'generator_distribution': cov, 'implementation_statistics': st, 'known_finding_replays_failing': kf,
+                                'generator_distribution': cov, 'model_flag_map_copies': MAPCP, 'implementation_statistics': st, 'known_finding_replays_failing': kf,
                                 'observables': 'per op: heap allocation on the caller (0/1), mmap on the caller (0/1), enqueued/dropped/threw, producer queue capacity, size-cache capacity, direct-format formatter calls on the caller, deferred-format formatter calls on the caller; side channel: count per entry point, formatter calls on the backend'})
 
 
@@ -666,14 +699,16 @@ def replay(path):
     except ValueError:      # a corpus file: the first case line
         d = {'case': next((l.strip() for l in txt.splitlines() if l.strip() and not l.startswith('#')), None)}
     ck = Check(PID, 'quick')
+    ck.srcfacts(); src_variant(ck)
     mexe, _ = ck.build_modelrun(); exes, errs = build_all(ck)
     c = d.get('case')
     if not c:
         print('replay holds no concrete case; broken:', d.get('broken')); return 1
+    c = with_variant(c)
     if not all(exes):
         print('harness does not compile:', next(x for x in errs if x)[-600:]); return 1
     pc = parse_case(c)
-    print('case :', c[:600])
+    print('case :', c[:600]); print('      model variant: map_copies=%d (T-src)' % MAPCP)
     print('      frontend %s, statement signature %d: (%s)' % ('unbounded' if pc['fe'] else 'bounded', pc['sig'], ', '.join(t.cpp for t in pc['ts'])))
     m = ck.run_model(mexe, [c])[0]
     il, side = run_impl(ck, exes, [c], 'replay')
